@@ -611,7 +611,7 @@ class MacrostateS(metaclass = Singleton):
         return (complexes, name, nargs)
 
     def __init__(self, complexes, name, canon = None):
-        self._complexes = complexes
+        self._complexes = list(complexes)
         self._representative = next(x for x in complexes if x.name == name)
         self._canonical_form = canon
 
